@@ -41,6 +41,8 @@ def run_check(pid, tier, replay=None):
 
     import instantiate
     instantiate.instantiate_all()
+    import gen_main
+    gen_main.generate()
 
     # 1. translator: regenerate tables from the current /repo
     gen_info = None
@@ -152,6 +154,8 @@ def setup():
     C.setup_tf()
     import instantiate
     instantiate.instantiate_all()
+    import gen_main
+    gen_main.generate()
     for pid in ALL:
         try:
             mod = load_prop(pid)
